@@ -204,6 +204,24 @@ def oracle(ctx, hints=()):
         if o.no != no:
             viol.append({'fn': 'sglib.Sg%d' % no, 'what': 'class number', 'observed': o.no, 'expected': no, 'known_id': None})
         viol += table_violations(no, rh, o)
+        # what a user gets is the xfab.sg.sg instance, not the sglib class: it must carry the tabulated group unchanged
+        ev += 1
+        try:
+            a = sg.sg(sgno=no, cell_choice='rhombohedral' if rh else 'standard')
+            diff = [k for k in ('no', 'name', 'nsymop', 'nuniq', 'Laue', 'crystal_system', 'cell_choice')
+                    if getattr(a, k, None) != getattr(o, k, None)]
+            for k in ('rot', 'trans', 'syscond'):
+                if not np.array_equal(np.asarray(getattr(a, k, None), dtype=float), np.asarray(getattr(o, k), dtype=float)):
+                    diff.append(k)
+        except Exception as e:
+            viol.append({'fn': 'sg.sg', 'sgno': no, 'setting': 'rhombohedral' if rh else 'standard', 'what': 'lookup by number',
+                         'observed': '%s: %s' % (type(e).__name__, e), 'expected': 'the tabulated group', 'known_id': None})
+            continue
+        if diff:
+            tv = [dict(v, fn='sg.sg(sgno=%d)' % no, differs_from_table_in=diff) for v in table_violations(no, rh, a)]
+            viol += tv or [{'fn': 'sg.sg', 'sgno': no, 'setting': 'rhombohedral' if rh else 'standard',
+                            'what': 'sg.sg instance carries the tabulated group', 'observed': 'attributes differ: %s' % diff,
+                            'expected': 'identical to sglib.Sg%d' % no, 'known_id': None}]
     # names: every key, with variants, gives the same group as its number
     nvar = ctx.n(2, 20, boost=10)
     for k, cls in sg.sgdic.items():
@@ -235,7 +253,12 @@ def replay(payload):
     if not v:
         print('replay: broken obligation, no input stored:', payload.get('broken'))
         return 1
-    if v['fn'].startswith('sglib.Sg'):
+    if v['fn'].startswith('sg.sg(sgno='):
+        from xfab import sg
+        no = int(v['fn'][11:-1])
+        rh = v.get('setting') == 'rhombohedral'
+        res = table_violations(no, rh, sg.sg(sgno=no, cell_choice='rhombohedral' if rh else 'standard'))
+    elif v['fn'].startswith('sglib.Sg'):
         no = int(v['fn'][8:])
         from xfab import sglib
         rh = v.get('setting') == 'rhombohedral'
